@@ -29,7 +29,7 @@ type c02Len struct {
 type c02Corrupt struct {
 	Recs []fqRec `json:"records"`
 	R    int     `json:"record_index"`
-	Kind string  `json:"kind"` // no-at | plus-replaced | plus-emptied | plus-deleted | quals-longer | quals-shorter | cut
+	Kind string  `json:"kind"`                 // no-at | plus-replaced | plus-emptied | plus-deleted | quals-longer | quals-shorter | cut
 	Cut  int     `json:"cut_offset,omitempty"` // for kind=cut: number of bytes of record R that are kept
 }
 
